@@ -382,6 +382,56 @@ func rulesC15(p *Prog, r *Report) {
 		}
 	}
 
+	// R15.5 ------------------------------------------------------------------------
+	// A unit that swallows the failure of a step which can fail after it has written
+	// state commits that step's partial writes: inside wrapper closures (and unwrapped
+	// hook code) the error of such a step must lead to a non-nil return.
+	r.Rule("R15.5", "no swallowed failure of a step that can fail after writing state (inside units and unwrapped hook code)", 10)
+	faw := newFailsAfterWrite(p, sw, af)
+	{
+		scope := map[*ssa.Function]string{}
+		for _, u := range units {
+			if u.Closure != nil {
+				scope[u.Closure] = "unit " + fname(u.Closure)
+			}
+		}
+		for _, h := range hooks {
+			scope[h.Fn] = "hook " + h.Name
+		}
+		var fs []*ssa.Function
+		for f := range scope {
+			fs = append(fs, f)
+		}
+		sort.Slice(fs, func(i, j int) bool { return fname(fs[i]) < fname(fs[j]) })
+		for _, f := range fs {
+			for _, c := range calls(f) {
+				call, ok := c.(*ssa.Call)
+				if !ok || p.callIsFn(c, af) {
+					continue
+				}
+				bad := false
+				var why []string
+				for _, t := range p.Callees(c) {
+					if isComdexFn(t) {
+						if b, ch := faw.Fn(t); b {
+							bad, why = true, ch
+						}
+					}
+				}
+				if !bad {
+					continue
+				}
+				r.Instance("R15.5")
+				construct := fmt.Sprintf("%s: error of %s", fname(f), callName(c))
+				if swallowed, pos := errorSwallowed(p, f, call); swallowed {
+					r.Fail("R15.5", construct, "the step can fail after it has written state, and its failure does not make the unit fail (error ignored or only logged): the unit then commits the step's partial writes", pos, why)
+				} else {
+					r.OK("R15.5", construct, "failure of a step that may fail after writing propagates as the unit's failure", p.instrPos(c))
+				}
+			}
+		}
+	}
+
 	// R15.4 ------------------------------------------------------------------------
 	r.Rule("R15.4", "unwrapped hook code: slices bounded by the sliced list's own length; no explicit panic; no unchecked integer division", 4)
 	var inventory []string
@@ -590,4 +640,277 @@ func convOf(a, b ssa.Value) bool {
 		return true
 	}
 	return false
+}
+
+// failsAfterWrite: the function can return an error (or a callee can) on a path that has
+// already performed a state write outside a nested ApplyFuncIfNoError unit.
+type failsAfterWrite struct {
+	p    *Prog
+	sw   *MaySummary
+	af   *ssa.Function
+	memo map[*ssa.Function]*fawRes
+}
+
+type fawRes struct {
+	state int
+	bad   bool
+	chain []string
+}
+
+func newFailsAfterWrite(p *Prog, sw *MaySummary, af *ssa.Function) *failsAfterWrite {
+	return &failsAfterWrite{p: p, sw: sw, af: af, memo: map[*ssa.Function]*fawRes{}}
+}
+
+func (q *failsAfterWrite) Fn(fn *ssa.Function) (bool, []string) {
+	if r, ok := q.memo[fn]; ok {
+		if r.state == 1 {
+			return false, nil
+		}
+		return r.bad, r.chain
+	}
+	res := &fawRes{state: 1}
+	q.memo[fn] = res
+	defer func() { res.state = 2 }()
+	if len(fn.Blocks) == 0 || errResultIndex(fn) < 0 {
+		// a function without error result cannot report failure; panics are the wrapper's business
+		// but it may still contain a failing-after-write callee whose error it drops
+		if len(fn.Blocks) == 0 {
+			return false, nil
+		}
+	}
+	p := q.p
+	// error exits of fn (a return forwarding the error of a callee that never fails is not one)
+	back := backEdges(fn)
+	var errExits []*ssa.BasicBlock
+	for _, rt := range returns(fn) {
+		if ei := errResultIndex(fn); ei >= 0 && exitKind(rt) != ExitSuccess {
+			if ei < len(rt.Results) {
+				if cs := errorCallsOf(rt.Results[ei], 0); len(cs) > 0 {
+					all := true
+					for _, cc := range cs {
+						for _, t := range p.Callees(cc) {
+							if !neverFails(t) {
+								all = false
+							}
+						}
+						if len(p.Callees(cc)) == 0 {
+							all = false
+						}
+					}
+					if all {
+						continue
+					}
+				}
+			}
+			errExits = append(errExits, rt.Block())
+		}
+	}
+	for _, c := range calls(fn) {
+		if p.callIsFn(c, q.af) {
+			continue
+		}
+		if _, isDefer := c.(*ssa.Defer); isDefer {
+			continue
+		}
+		// callee that itself fails after write
+		for _, t := range p.Callees(c) {
+			if isComdexFn(t) {
+				if b, ch := q.Fn(t); b {
+					res.bad = true
+					res.chain = append([]string{fmt.Sprintf("%s %s in %s", p.instrPos(c), callName(c), fname(fn))}, ch...)
+					return true, res.chain
+				}
+			}
+		}
+		if !q.sw.Call(c) {
+			continue
+		}
+		// a write site: can an error exit be reached afterwards?
+		seen, _ := reach(fn, c.Block(), back, nil)
+		for _, e := range errExits {
+			if seen[e] {
+				// the error exit must not be the failure of this very call returning before any other write:
+				// accept when the only error exit reachable is guarded by this call's own error (the call failed, its
+				// own atomicity is the callee's business) and no earlier write exists.
+				if q.onlyOwnFailure(fn, c, e) && !q.writeBefore(fn, c) {
+					continue
+				}
+				res.bad = true
+				res.chain = []string{fmt.Sprintf("%s writes state (%s) and can still return an error at %s in %s", p.instrPos(c), callName(c), p.instrPos(e.Instrs[len(e.Instrs)-1]), fname(fn))}
+				return true, res.chain
+			}
+		}
+	}
+	return false, nil
+}
+
+// onlyOwnFailure: error exit e is the `if err != nil { return err }` of call c itself.
+func (q *failsAfterWrite) onlyOwnFailure(fn *ssa.Function, c ssa.CallInstruction, e *ssa.BasicBlock) bool {
+	call, ok := c.(*ssa.Call)
+	if !ok {
+		return false
+	}
+	// e dominated by true edge of a nil check on an error value produced by call
+	for d := e; d != nil; d = d.Idom() {
+		cb := d.Idom()
+		if cb == nil {
+			break
+		}
+		if len(d.Preds) != 1 {
+			continue
+		}
+		ifi, ok := cb.Instrs[len(cb.Instrs)-1].(*ssa.If)
+		if !ok {
+			continue
+		}
+		x, neq, ok := nilCheck(ifi.Cond)
+		if !ok {
+			continue
+		}
+		if !((neq && cb.Succs[0] == d) || (!neq && cb.Succs[1] == d)) {
+			continue
+		}
+		for _, cc := range errorCallsOf(x, 0) {
+			if cc == call {
+				return true
+			}
+		}
+	}
+	return false
+}
+
+// writeBefore: some other state write can precede call c in fn.
+func (q *failsAfterWrite) writeBefore(fn *ssa.Function, c ssa.CallInstruction) bool {
+	for _, o := range calls(fn) {
+		if o == c || q.p.callIsFn(o, q.af) || !q.sw.Call(o) {
+			continue
+		}
+		if _, isDefer := o.(*ssa.Defer); isDefer {
+			continue
+		}
+		if o.Block() == c.Block() {
+			for _, in := range o.Block().Instrs {
+				if in == o {
+					return true
+				}
+				if in == c {
+					break
+				}
+			}
+			continue
+		}
+		seen, _ := reach(fn, o.Block(), backEdges(fn), nil)
+		if seen[c.Block()] {
+			return true
+		}
+	}
+	return false
+}
+
+// errorSwallowed: the error result of call is ignored, or its non-nil branch can reach a
+// success exit of f.
+func errorSwallowed(p *Prog, f *ssa.Function, call *ssa.Call) (bool, string) {
+	sig := call.Call.Signature()
+	n := sig.Results().Len()
+	if n == 0 || !isErrorType(sig.Results().At(n-1).Type()) {
+		return false, ""
+	}
+	var ev ssa.Value
+	if n == 1 {
+		ev = call
+	} else {
+		for _, ref := range *call.Referrers() {
+			if ex, ok := ref.(*ssa.Extract); ok && ex.Index == n-1 {
+				ev = ex
+			}
+		}
+	}
+	if ev == nil || ev.Referrers() == nil || len(*ev.Referrers()) == 0 {
+		return true, p.instrPos(call)
+	}
+	// find nil checks on ev (possibly through phi)
+	var users []ssa.Value
+	users = append(users, ev)
+	for _, ref := range *ev.Referrers() {
+		if ph, ok := ref.(*ssa.Phi); ok {
+			users = append(users, ph)
+		}
+	}
+	checked := false
+	for _, b := range f.Blocks {
+		ifi, ok := b.Instrs[len(b.Instrs)-1].(*ssa.If)
+		if !ok {
+			continue
+		}
+		x, neq, ok := nilCheck(ifi.Cond)
+		if !ok {
+			continue
+		}
+		match := false
+		for _, u := range users {
+			if x == u {
+				match = true
+			}
+		}
+		if !match {
+			continue
+		}
+		checked = true
+		errSucc := b.Succs[0]
+		if !neq {
+			errSucc = b.Succs[1]
+		}
+		seen, _ := reach(f, errSucc, nil, nil)
+		for _, rt := range returns(f) {
+			if seen[rt.Block()] && exitKind(rt) == ExitSuccess {
+				return true, p.instrPos(ifi)
+			}
+		}
+	}
+	if !checked {
+		// returned directly?
+		for _, ref := range *ev.Referrers() {
+			if _, ok := ref.(*ssa.Return); ok {
+				return false, ""
+			}
+		}
+		for _, u := range users {
+			if u == ev {
+				continue
+			}
+			for _, ref := range *u.Referrers() {
+				if _, ok := ref.(*ssa.Return); ok {
+					return false, ""
+				}
+			}
+		}
+		return true, p.instrPos(call)
+	}
+	return false, ""
+}
+
+// backEdges returns the back edges of fn (b -> s with s dominating b).
+func backEdges(fn *ssa.Function) map[Edge]bool {
+	out := map[Edge]bool{}
+	for _, b := range fn.Blocks {
+		for i, s := range b.Succs {
+			if s.Dominates(b) {
+				out[Edge{b, i}] = true
+			}
+		}
+	}
+	return out
+}
+
+// neverFails: every return of fn yields the constant nil error.
+func neverFails(fn *ssa.Function) bool {
+	if errResultIndex(fn) < 0 || len(fn.Blocks) == 0 {
+		return false
+	}
+	for _, rt := range returns(fn) {
+		if exitKind(rt) != ExitSuccess {
+			return false
+		}
+	}
+	return true
 }
